@@ -10,8 +10,9 @@ Explicit-state search over the life-cycle machine of one PPTable, for every tabl
               fmt = "*" | fmt = <other explicit format> | rebuild (replace the table by
               PPTable(records, fmt=str(fmt), same fields / types / header))
   state     = reached by replaying the operation path on a fresh table (tables cannot be copied);
-              canonical key = (reference model of the format, printed-since-last-format-change flag,
-              str(table.fmt)); merged states have the same future because set_fmt rebuilds every column
+              every state check starts from the module / class level state of a fresh interpreter
+              (mc.hist_render.StateSnapshot); canonical key = (reference model of the format,
+              printed-since-last-format-change flag, str(table.fmt)); merged states have the same future because set_fmt rebuilds every column
               object from the format (negotiated widths and the 'lines skipped' flag are the only memory and
               both show in str(fmt)).
   invariant (every distinct state):  s = str(table.fmt)
@@ -25,6 +26,7 @@ Oracle: rendering equality (differential) + a 20-line reference parser of the do
 import itertools
 import re
 
+from mc import hist_render as H
 from models import render_objs as R
 
 ID = "C13"
@@ -288,6 +290,7 @@ def _sig_suffix(s):
 def check_state(spec, path, acc):
     """Evaluate invariants (a)-(d) in the state reached by `path`. -> (outcome label, features)."""
     case = {"table": {"columns": list(spec[0]), "limits": spec[1], "records": spec[2]}, "path": list(path)}
+    H.pristine_state().restore()        # module / class level state of ak as in a fresh interpreter
     base = replay_path(spec, path)
     acc.trans(base.n_ops)
     s = str(base.table.fmt)
@@ -297,16 +300,22 @@ def check_state(spec, path, acc):
     rep_cols, rep_lim = safe_parse(s)
     if rep_lim == "absent":
         feats.append("fmt:limits-omitted")
-    r0 = render(replay_path(spec, path).table)
-    if "records skipped" in r0:
-        feats.append("state:renders-with-skipped-lines")
-    acc.trans(1)
     label = "ok"
 
     def bad(sig, msg, obs, exp):
         nonlocal label
         acc.violation("C13:" + sig, case, msg, obs, exp)
         label = "viol:" + sig
+
+    acc.trans(1)
+    try:
+        r0 = render(replay_path(spec, path).table)
+    except Exception as e:  # noqa  -- every format used here is valid: the table must be printable
+        bad("state-cannot-be-rendered", f"a table brought into this state by valid operations cannot be printed: "
+            f"{type(e).__name__}", f"{s!r}: {e}", "a rendering")
+        return label, feats, base
+    if "records skipped" in r0:
+        feats.append("state:renders-with-skipped-lines")
 
     # (d) the reported format describes the format the table has
     if not isinstance(rep_cols, list) or not cols_match(rep_cols, base.model.cols):
@@ -450,6 +459,7 @@ def explore_table(spec, depth, acc):
 
 
 def run_shard(shard, tier, seed, acc):
+    H.pristine_state()                  # snapshot before the first table of this process exists
     _, i, k = shard
     depth = 3 if tier == "quick" else 4
     for n, spec in enumerate(_tables(tier)):
@@ -461,6 +471,7 @@ def run_shard(shard, tier, seed, acc):
 
 
 def replay(case, acc):
+    H.pristine_state()
     t = case["table"]
     spec = (tuple(t["columns"]), t["limits"], t["records"])
     path = tuple(case["path"])
